@@ -60,6 +60,7 @@ pub fn slow_world(ctx: &mut Ctx) {
     let m = 3 + ctx.plan(10) as usize;
     let sizes: Vec<usize> = (0..m).map(|_| SIZES[ctx.plan(SIZES.len() as u64) as usize]).collect();
     let nvict = 1 + ctx.plan(2) as usize;
+    let overlapping = ctx.plan_bool();
     let patterns: Vec<Pattern> = (0..nvict)
         .map(|v| {
             // the case index walks the stall pattern of the first victim
@@ -88,11 +89,19 @@ pub fn slow_world(ctx: &mut Ctx) {
         healthy.conn.set_io(1, |io| io.wyield_pm = 0);
         healthy.conn.set_cap(1, 1 << 40);
         healthy.send_msg(&[vec![1]]).await.expect("subscribe");
+        if overlapping {
+            // several subscriptions that all match: still one copy of each message
+            healthy.send_msg(&[vec![1, b't']]).await.expect("subscribe");
+            healthy.send_msg(&[vec![1]]).await.expect("subscribe");
+        }
         let mut victims: Vec<Option<RawPeer>> = Vec::new();
         for p in &pats {
             let mut v = RawPeer::connect(&ep).expect("connect");
             v.hello("SUB", None).await.expect("hello");
             v.send_msg(&[vec![1]]).await.expect("subscribe");
+            if overlapping {
+                v.send_msg(&[vec![1, b't']]).await.expect("subscribe");
+            }
             if *p != Pattern::Yielding {
                 v.conn.set_io(1, |io| io.wyield_pm = 0);
             }
@@ -337,7 +346,7 @@ pub fn def() -> PropDef {
     PropDef {
         id: "C12",
         level: "fault_enumeration",
-        rule: "slow_world: case index walks socket kind (PUB/XPUB) x stall pattern of the first victim {accept k bytes then stall (k around the 128 KiB mark), stall/resume between messages a and b, never drain, broken pipe after message a, co-operative yields}; message sizes drawn from a grid around 128 KiB; one healthy subscriber; memory_world: one subscriber that stalls / stalls and then fails every write / closes while the application never calls recv, 50..149 further messages, heap growth measured by a counting allocator; non-trivial = the run reached its judgement; distinct = distinct (plan, schedule, transport) hashes",
+        rule: "slow_world: case index walks socket kind (PUB/XPUB) x stall pattern of the first victim {accept k bytes then stall (k around the 128 KiB mark), stall/resume between messages a and b, never drain, broken pipe after message a, co-operative yields}; message sizes drawn from a grid around 128 KiB; in half of the runs every subscriber holds several subscriptions that all match; one healthy subscriber; memory_world: one subscriber that stalls / stalls and then fails every write / closes while the application never calls recv, 50..149 further messages, heap growth measured by a counting allocator; non-trivial = the run reached its judgement; distinct = distinct (plan, schedule, transport) hashes",
         assumptions: &["'accepts every write' = the subscriber's pipe never answers Pending to a write (short writes allowed)", "memory bound asserted: 2 x (128 KiB + message size) + 64 KiB of live heap growth, independent of the number of messages published"],
         strata: vec![
             Stratum { name: "slow_world", quick: 30_000, thorough: (300_000) * 4, exhaustive: (false, false), run: slow_world, what: "publisher completion, healthy subscriber complete, victim stream = prefix of an ordered subsequence" },
